@@ -750,6 +750,51 @@ class EventGraph:
         return sorted((nm(a), str(l), nm(b)) for a, l, b in self.edges)
 
 
+def _mentioned_locals(j, out):
+    if isinstance(j, list):
+        for x in j:
+            _mentioned_locals(x, out)
+    elif isinstance(j, dict):
+        if "l" in j and isinstance(j["l"], int) and set(j) <= {"l", "p"}:
+            out.add(j["l"])
+            for e in j.get("p", []):
+                if isinstance(e, dict) and isinstance(e.get("idx"), int):
+                    out.add(e["idx"])
+            return
+        for v in j.values():
+            _mentioned_locals(v, out)
+
+
+def mentioned_later(fn):
+    """block -> locals named directly by some statement/terminator of the block or of a block reachable from it"""
+    c = getattr(fn, "_mentioned_later", None)
+    if c is not None:
+        return c
+    own = {}
+    for b in fn.reachable():
+        blk = fn.blocks[b]
+        m = set()
+        for st in blk.stmts:
+            _mentioned_locals(st.j, m)
+        _mentioned_locals(blk.term.j, m)
+        own[b] = m
+    live = {b: set(m) for b, m in own.items()}
+    changed = True
+    order = sorted(own, reverse=True)
+    while changed:
+        changed = False
+        for b in order:
+            acc = live[b]
+            n0 = len(acc)
+            for s_ in fn.succs(b, with_unwind=True):
+                if s_ in live:
+                    acc |= live[s_]
+            if len(acc) != n0:
+                changed = True
+    fn._mentioned_later = live
+    return live
+
+
 def event_graph(fn, role_of, ret_local=0, max_states=40000, branch_role=None, stmt_role=None):
     """Quotient of the CFG on event blocks.
     role_of(term) -> role string or None for call terminators.
@@ -774,12 +819,18 @@ def event_graph(fn, role_of, ret_local=0, max_states=40000, branch_role=None, st
                 if r is not None:
                     br_roles[b] = r
     start = ("ENTRY", frozenset(), "", None, frozenset(), frozenset())
+    later = mentioned_later(fn)
     work = [(0, start)]
     seen = set()
     n = 0
     while work:
         bb, st = work.pop()
         src, aliases, label, retv, decided, kb = st
+        # knowledge about a local that nothing names any more cannot influence the rest of the path
+        if kb:
+            lv = later.get(bb, ())
+            if any(x[0] not in lv for x in kb):
+                kb = frozenset(x for x in kb if x[0] in lv)
         key = (bb, src, aliases, label, retv, decided, kb)
         if key in seen:
             continue
